@@ -1129,8 +1129,11 @@ def _family(entries, subst):
             if (show(fi), show(fv)) == (show(at0[0]), show(at0[1])):
                 lo = 0
                 used.add(n)
-        b = vsubst(c[1], subst) if c[1] is not None else None
-        out.append("[%s]=%s (%d<=j<%s)" % (show(idx), show(val), lo, show(b) if b is not None else "?"))
+        if c[1] is None:
+            raise AnalysisError("state layout: the iteration bound of a loop filling %s is not understood "
+                                "(only `v < B` / `v != B` with v counting up from its initial value)" % show(val))
+        b = vsubst(c[1], subst)
+        out.append("[%s]=%s (%d<=j<%s)" % (show(idx), show(val), lo, show(b)))
     for n, (fi, fv, fc) in enumerate(firsts):
         if n not in used:
             b = vsubst(fc[1], subst) if fc[1] is not None else None
